@@ -63,8 +63,50 @@ func r43PixelFormulaShape(c *core.Ctx) {
 	info := g.Pkg.TypesInfo
 	env := newSymEnv(c.P, info)
 	env.run(g.Decl.Body.List)
+	sig := g.Obj.Type().(*types.Signature)
+	lvl, px, py, rootE := sig.Params().At(0).Name(), sig.Params().At(1).Name(), sig.Params().At(2).Name(), sig.Params().At(3).Name()
+	litHost := g
 	ext := findLit(info, g.Decl.Body, "intgeom.Extent")
 	cen := findLit(info, g.Decl.Body, "intgeom.Point")
+	if ext == nil && cen == nil && len(g.Decl.Body.List) > 0 {
+		// the extent and centre are put together by a package function this method hands its span and indices to
+		if ret, ok := g.Decl.Body.List[len(g.Decl.Body.List)-1].(*ast.ReturnStmt); ok && len(ret.Results) == 1 {
+			if call, ok := ast.Unparen(ret.Results[0]).(*ast.CallExpr); ok {
+				if cal := core.Callee(info, call); cal != nil {
+					if h := c.P.ByObj[cal.Origin()]; h != nil && h.Pkg == g.Pkg && h.Decl.Body != nil {
+						hs := h.Obj.Type().(*types.Signature)
+						for i, a := range call.Args {
+							if i >= hs.Params().Len() {
+								break
+							}
+							if v, ok := env.eval(a); ok {
+								env.vars[hs.Params().At(i)] = v
+							}
+							// the names the expected formulas are written with: the helper's own parameter names
+							if id, isID := ast.Unparen(a).(*ast.Ident); isID {
+								switch id.Name {
+								case px:
+									px = hs.Params().At(i).Name()
+								case py:
+									py = hs.Params().At(i).Name()
+								case rootE:
+									rootE = hs.Params().At(i).Name()
+								}
+								if id.Name == px || id.Name == py || id.Name == rootE {
+									delete(env.vars, hs.Params().At(i)) // stays the plain symbol of its own name
+								}
+							}
+						}
+						env.run(h.Decl.Body.List)
+						ext = findLit(info, h.Decl.Body, "intgeom.Extent")
+						cen = findLit(info, h.Decl.Body, "intgeom.Point")
+						litHost = h
+					}
+				}
+			}
+		}
+	}
+	_ = litHost
 	if ext == nil || cen == nil || len(ext.Elts) != 4 || len(cen.Elts) != 2 {
 		c.Bad(R, "literals/"+g.Name, g.Decl.Pos(), "extent / centroid literals not found")
 		return
@@ -75,8 +117,6 @@ func r43PixelFormulaShape(c *core.Ctx) {
 		c.Unknown(R, "evaluable/"+g.Name, g.Decl.Pos(), "formulas cannot be evaluated symbolically: "+env.err)
 		return
 	}
-	sig := g.Obj.Type().(*types.Signature)
-	lvl, px, py, rootE := sig.Params().At(0).Name(), sig.Params().At(1).Name(), sig.Params().At(2).Name(), sig.Params().At(3).Name()
 	// span: the variable multiplied with the index
 	S := pAdd(E[2], E[0], -1)
 	c.Saw(R, "span = "+S.String()+"; minX = "+E[0].String()+"; centreX = "+C[0].String())
